@@ -564,7 +564,10 @@ func (it *Interp) regionOf(in *ssa.If) *regionInfo {
 		if state[x] == 2 || inFrontier[x] {
 			return
 		}
-		if !pure(x) {
+		if !pure(x) || x.Dominates(b) {
+			// impure block, or a block that dominates the branch (a loop header reached through a
+			// back edge: evaluating it would overwrite loop-carried SSA values still needed by
+			// other paths of the region)
 			inFrontier[x] = true
 			r.frontier = append(r.frontier, x)
 			return
